@@ -46,6 +46,38 @@ class FakeTransport(asyncio.Transport):
         self.stalled = False       # the peer does not read and the kernel buffers are full: what is written stays in the write buffer
         self._buffer = bytearray()
         self._buffer_calls = []
+        self._high_water, self._low_water = 64 * 1024, 16 * 1024      # asyncio's defaults (transports._FlowControlMixin)
+        self._protocol_paused = False
+
+    def set_write_buffer_limits(self, high=None, low=None):
+        if high is None:
+            high = 64 * 1024 if low is None else 4 * low
+        if low is None:
+            low = high // 4
+        if not high >= low >= 0:
+            raise ValueError(f"high ({high!r}) must be >= low ({low!r}) must be >= 0")
+        self._high_water, self._low_water = high, low
+        self._maybe_pause_protocol()
+
+    def get_write_buffer_limits(self):
+        return (self._low_water, self._high_water)
+
+    def _maybe_pause_protocol(self):
+        # asyncio: called after every append to the write buffer; an exception of the protocol is reported, not raised
+        if len(self._buffer) > self._high_water and not self._protocol_paused:
+            self._protocol_paused = True
+            try:
+                self._protocol.pause_writing()
+            except Exception:  # noqa: BLE001
+                pass
+
+    def _maybe_resume_protocol(self):
+        if self._protocol_paused and len(self._buffer) <= self._low_water:
+            self._protocol_paused = False
+            try:
+                self._protocol.resume_writing()
+            except Exception:  # noqa: BLE001
+                pass
 
     # ---- controller-facing API
     def get_extra_info(self, name, default=None):
@@ -93,6 +125,7 @@ class FakeTransport(asyncio.Transport):
         if self.stalled or self._buffer:
             self._buffer += data
             self._buffer_calls.append((len(self.write_calls) - 1, data))
+            self._maybe_pause_protocol()
             return
         if self.peer is not None:
             self.peer.controller_wrote(data, len(self.write_calls) - 1)
@@ -109,6 +142,7 @@ class FakeTransport(asyncio.Transport):
         for idx, data in calls:
             if self.peer is not None:
                 self.peer.controller_wrote(data, idx)
+        self._maybe_resume_protocol()
         if self._closing:
             self._conn_lost += 1
             self._loop.call_soon(self._call_connection_lost, None)
